@@ -5,6 +5,8 @@ from typing import TYPE_CHECKING
 import attrs
 import h5py
 import numpy as np
+from astropy import units
+from astropy.coordinates import Angle, SkyCoord
 from matplotlib import pyplot as plt
 
 from sigpyproc.core import stats
@@ -266,8 +268,16 @@ class RFIMask:
         with h5py.File(filename, "w") as fp:
             fp.attrs["threshold"] = self.threshold
             for key, value in attrs.asdict(self.header).items():
-                if isinstance(value, np.integer | np.floating | int | float | str):
+                if isinstance(
+                    value,
+                    np.integer | np.floating | np.bool_ | int | float | str,
+                ):
                     fp.attrs[key] = value
+            # Sky position and telescope pointing are not plain scalars
+            fp.attrs["ra_deg"] = self.header.coord.icrs.ra.deg
+            fp.attrs["dec_deg"] = self.header.coord.icrs.dec.deg
+            fp.attrs["azimuth_deg"] = self.header.azimuth.deg
+            fp.attrs["zenith_deg"] = self.header.zenith.deg
             for key, value in attrs.asdict(self).items():
                 if isinstance(value, np.ndarray):
                     fp.create_dataset(key, data=value)
@@ -391,6 +401,16 @@ class RFIMask:
             for key, value in fp_attrs.items()
             if key in attrs.fields_dict(Header)
         }
+        if "ra_deg" in fp_attrs and "dec_deg" in fp_attrs:
+            hdr_checked["coord"] = SkyCoord(
+                fp_attrs["ra_deg"],
+                fp_attrs["dec_deg"],
+                unit="deg",
+            )
+        if "azimuth_deg" in fp_attrs:
+            hdr_checked["azimuth"] = Angle(fp_attrs["azimuth_deg"] * units.deg)
+        if "zenith_deg" in fp_attrs:
+            hdr_checked["zenith"] = Angle(fp_attrs["zenith_deg"] * units.deg)
         kws = {
             "header": Header(**hdr_checked),
             "threshold": fp_attrs["threshold"],
